@@ -63,16 +63,24 @@ def parse_playback(out):
 SPURIOUS = ("rust_dealloc must be called", "free argument", "double free", "free called for")
 
 
-def pick_counterexample(entries):
-    """The test generated for a failed user assertion / panic (not a cover
-    witness, not the deallocation-model checks of kani_lib.c)."""
+def counterexample_candidates(entries):
+    """Concrete-playback tests that may carry the counterexample, best first:
+    the tests generated for a failed user assertion / panic (not the
+    deallocation-model checks of kani_lib.c), then the tests labelled as cover
+    witnesses -- Kani prints one test per distinct vector of values, so when the
+    assignment that violates the assertion is the same one that witnesses a
+    cover, the only copy is labelled `cover`."""
+    first, second = [], []
     for kind, desc, vals in entries:
-        if kind == "cover":
-            continue
         if any(s in desc for s in SPURIOUS):
             continue
-        return kind, desc, vals
-    return None
+        (second if kind == "cover" else first).append((kind, desc, vals))
+    return first + second
+
+
+def pick_counterexample(entries):
+    c = counterexample_candidates(entries)
+    return c[0] if c else None
 
 
 def native_replay(harness, vals, stage_dir, features=None):
@@ -207,16 +215,23 @@ def main():
                 rdir = get_replay_dir()
                 for h in failing:
                     hr = harness_results[h]
-                    pick = pick_counterexample(pb.get(h, []))
-                    if not pick:
+                    cands = counterexample_candidates(pb.get(h, []))
+                    if not cands:
                         hr["class"] = "inconclusive"
                         hr["note"] = ("only deallocation-model checks of kani_lib.c failed (memory-model artefact)"
                                       if pb.get(h) else "no concrete values from playback")
                         continue
+                    pick, rr = None, None
+                    for cand in cands[:4]:
+                        with lock:   # one native build at a time
+                            rr_c = native_replay(h, cand[2], rdir, features=g.get("features"))
+                        if pick is None:
+                            pick, rr = cand, rr_c
+                        if any(v["status"] == "reproduced" for v in rr_c.values()):
+                            pick, rr = cand, rr_c
+                            break
                     vals = pick[2]
                     hr["failed_assertion"] = pick[1]
-                    with lock:   # one native build at a time
-                        rr = native_replay(h, vals, rdir, features=g.get("features"))
                     hr["replay"] = {k: {"status": v["status"], "panic": v.get("panic")} for k, v in rr.items()}
                     hr["values"] = vals[:40]
                     statuses = [v["status"] for v in rr.values()]
